@@ -282,6 +282,9 @@ def c11(res, tier, seed):
         big = si % 8 == 7
         nrules = r.randint(66, 80) if big else r.randint(1, 9)
         nns = r.randint(9, 14) if si % 4 == 3 else r.randint(1, 3)
+        if si % 10 == 6:
+            # more namespaces than the bits of half a word / a word of the per-namespace table, three rules each on average
+            nns = r.choice([33, 40, 64, 65, 70]); nrules = 3 * nns; big = True
         rules = random_ruleset(r, nrules, nns, 2, ALL_KINDS, pglobal=0.25, pprivate=0.25)
         f, data, sizes = random_file(r, si + 1, 2, nblocks=1)
         # dry message count upper bound: 2 per import + rules + finished
